@@ -43,6 +43,12 @@ def documents(secret_path):
     d["paint_fallback_colour_long_id"] = f'<svg {NS} viewBox="0 0 9 9"><defs>{lg}</defs><rect width="5" height="5" fill="url(#{long_id}) red" transform="translate(1 1)"/></svg>'
     d["paint_unterminated_url_long_id"] = f'<svg {NS} viewBox="0 0 9 9"><defs>{lg}</defs><g transform="scale(2)"><rect width="5" height="5" fill="url(#{long_id}"/></g></svg>'
     d["clip_url_with_space_long_id"] = f'<svg {NS} viewBox="0 0 9 9"><clipPath id="{long_id}">{rect}</clipPath><rect width="5" height="5" clip-path="url(#{long_id} )"/></svg>'
+    # element names that merely START like an allowed one: still unknown elements (converted to nothing or refused, never passed through)
+    d["unknown_element_g_dash"] = f'<svg {NS} viewBox="0 0 9 9"><g-emoji opacity="0.5">{rect}<rect x="3" width="2" height="2"/></g-emoji></svg>'
+    d["unknown_element_g_dot"] = f'<svg {NS} viewBox="0 0 9 9"><g.layer opacity="0.4">{rect}<rect x="3" width="2" height="2"/></g.layer>{rect}</svg>'
+    d["unknown_element_stop_dash"] = f'<svg {NS} viewBox="0 0 9 9"><defs><linearGradient id="g"><stop offset="0" stop-color="red"/><stop-marker offset="1"/></linearGradient></defs><rect width="5" height="5" fill="url(#g)"/></svg>'
+    d["unknown_element_gradient_dash"] = f'<svg {NS} viewBox="0 0 9 9"><defs><linearGradient-x id="g"><stop offset="0" stop-color="red"/></linearGradient-x></defs><rect width="5" height="5" fill="url(#g)"/></svg>'
+    d["unknown_element_path_dot"] = f'<svg {NS} viewBox="0 0 9 9"><path.old d="M0,0 L5,0 L5,5 Z"/>{rect}</svg>'
     d["bad_number"] = f'<svg {NS} viewBox="0 0 9 9"><rect width="abc" height="5"/></svg>'
     d["bad_path"] = f'<svg {NS} viewBox="0 0 9 9"><path d="M0,0 L1 Q"/></svg>'
     d["bad_transform"] = f'<svg {NS} viewBox="0 0 9 9"><rect width="1" height="1" transform="rotate(x)"/></svg>'
@@ -66,12 +72,25 @@ def check(tier, seed, limit_s=None):
     open(secret, "w").write(f'<rect xmlns="http://www.w3.org/2000/svg" x="50" y="60" width="7" height="7"/>{token}')
     open(secret + ".dtd", "w").write('<!ENTITY w "7.25">')
     docs = documents(secret)
+    for k in ("clip_mutual", "clip_self", "grad_mutual", "use_mutual"):
+        docs["cli:" + k] = docs[k]
     findings, samples = [], []
 
     def one(item):
         name, doc = item
-        p = os.path.join(tmp, name + ".svg")
+        p = os.path.join(tmp, name.replace(":", "_") + ".svg")
         open(p, "w").write(doc)
+        if name.startswith("cli:"):
+            # the command line entry point itself (python -m picosvg.picosvg FILE): whatever main() sets up before converting counts too
+            import time
+
+            t0 = time.time()
+            try:
+                out = subprocess.run([sys.executable, "-m", "picosvg.picosvg", p], capture_output=True, text=True, timeout=limit_s)
+                r = dict(kind="returned", output=out.stdout[:4000], violations=[], seconds=time.time() - t0) if out.returncode == 0 else dict(kind="exception", type=(out.stderr.strip().splitlines() or ["?"])[-1][:80], seconds=time.time() - t0)
+            except subprocess.TimeoutExpired:
+                r = dict(kind="timeout", seconds=limit_s)
+            return name, r
         try:
             out = subprocess.run([sys.executable, os.path.join(ROOT, "bounded", "_adversarial_worker.py"), ROOT, p], capture_output=True, text=True, timeout=limit_s)
             line = (out.stdout.strip().splitlines() or ["{}"])[-1]
